@@ -33,7 +33,9 @@ def run(ck):
              dict(w=192, h=128, n=6, content=0, bits=10, **{'f:enc_mode': 8}), dict(w=256, h=128, n=12, content=7, **{'f:enc_mode': 8, 'f:film_grain_denoise_strength': 10}),
              dict(w=192, h=128, n=8, content=1, **{'f:enc_mode': 8, 'f:film_grain_denoise_strength': 20}), dict(w=256, h=128, n=8, content=6, **{'f:enc_mode': 8, 'f:tile_columns': 1, 'f:tile_rows': 1}),
              dict(w=256, h=192, n=8, content=2, **{'f:enc_mode': 8, 'f:superres_mode': 1, 'f:superres_denom': 12, 'f:superres_kf_denom': 12}),
-             dict(w=192, h=128, n=8, content=6, bits=10, **{'f:enc_mode': 5, 'f:film_grain_denoise_strength': 8}), dict(w=136, h=264, n=5, content=2, **{'f:enc_mode': 8, 'f:tile_rows': 2})]
+             dict(w=192, h=128, n=8, content=6, bits=10, **{'f:enc_mode': 5, 'f:film_grain_denoise_strength': 8}), dict(w=136, h=264, n=5, content=2, **{'f:enc_mode': 8, 'f:tile_rows': 2}),
+             # longer than the 7-bit order-hint period with real motion: references on both sides of the wrap (motion-field projection, skip mode, reference signs)
+             dict(w=128, h=64, n=150, content=8, **{'f:enc_mode': 8, 'f:logical_processors': 2})]
     if ck.tier == 'thorough':
         bases += [dict(w=w, h=h, n=8, content=c, bits=b, **{'f:enc_mode': p, 'f:qp': q, 'f:film_grain_denoise_strength': g})
                   for (w, h, c, b, p, q, g) in [(320, 192, 8, 8, 2, 30, 0), (192, 320, 6, 10, 4, 45, 12), (264, 136, 7, 8, 6, 20, 30), (128, 128, 4, 8, 8, 10, 0), (384, 256, 5, 8, 3, 55, 0), (200, 200, 1, 10, 7, 63, 50), (256, 128, 7, 10, 8, 35, 15)]]
